@@ -523,6 +523,8 @@ class Engine:
             return len(v.items) > 0
         if isinstance(v, SymSeq):
             return v.length > 0
+        if isinstance(v, V.BytesV):
+            return v.length > 0
         if isinstance(v, SymSet):
             w = ctx.fresh("wit", v.elem_sort)
             x = z3.FreshConst(v.elem_sort, "x")
@@ -1003,6 +1005,7 @@ class Engine:
                 from . import mutstate
 
                 ns.__dict__["old_" + pname] = mutstate.snapshot(pval)  # pre-state of a materialised (mutable) argument
+        ns.__dict__["old"] = make_old_view(ns, ns.__dict__.get("old"))
         if self_obj is not None and not is_init:
             for label, inv in self.class_invariants(ctx, self_obj):
                 ctx.assume(lift_bool(inv))
@@ -1018,7 +1021,8 @@ class Engine:
         ctx.top_contract, ctx.top_ns = contract, ns
         ctx.entry_measure = None
         if contract.decreases is not None:
-            ctx.entry_measure = tuple(self.run_spec(ctx, contract.decreases, ns))
+            ctx.entry_measure = as_measure(self.run_spec(ctx, contract.decreases, ns))
+        ctx.entry_old = ns.__dict__.get("old")
         env = Env(finfo.module, None, finfo)
         env.vars.update(args)
         if getattr(finfo, "self_recursive_name", None):
@@ -1075,6 +1079,15 @@ class Engine:
                 return True
         return False
 
+    def _invariant_at_calls(self, cls) -> bool:
+        """Class specs with `invariant_at_calls = True`: the class invariant of a materialised receiver is obligated
+           before a call of one of its methods and assumed again afterwards (bit reader / writer)."""
+        for c in cls.mro():
+            cs = self.reg.classes.get(c.qualname)
+            if cs and getattr(cs, "invariant_at_calls", False):
+                return True
+        return False
+
     def _is_mutable(self, cls) -> bool:
         for c in cls.mro():
             cs = self.reg.classes.get(c.qualname)
@@ -1105,6 +1118,17 @@ class Engine:
                        info={"origin": exc.fields.get("__origin__")})
 
     def _check_raise(self, ctx: Ctx, contract: Contract, ns: NS, exc: ExcVal):
+        # `raises_here`: exceptional postconditions for exceptions raised by a `raise` statement of this very function
+        # (not propagated from a callee): raise X here => cond_X
+        here = getattr(contract.impl, "raises_here", None) or {}
+        origin = exc.fields.get("__origin__") or ""
+        if here and isinstance(origin, str) and origin.startswith(contract.qualname + " line"):
+            for xname, cond in here.items():
+                if self.exc_matches(exc, xname):
+                    ns.__dict__["exc"] = exc
+                    c = self.run_spec(ctx, cond, ns)
+                    ctx.oblige("%s/raises-here#%s" % (short(ctx.func), xname), lift_bool(c), kind="raises")
+                    break
         matched = None
         self._check_exc_fields(ctx, contract, ns, exc)
         for xname, cond in getattr(contract, "raises_implies", {}).items():
@@ -1119,7 +1143,7 @@ class Engine:
                 matched = xname
                 break
         if matched is None:
-            for xname, cond in contract.raises_if.items():
+            for xname, cond in list(contract.raises_if.items()) + list(contract.raises_only_if.items()):
                 if self.exc_matches(exc, xname):
                     ns.__dict__["exc"] = exc
                     c = self.run_spec(ctx, cond, ns)
@@ -1450,7 +1474,11 @@ class Engine:
             raise
 
     def ex_Constant(self, ctx, e, env):
-        if isinstance(e.value, (bytes, complex)) or e.value is Ellipsis:
+        if isinstance(e.value, bytes):
+            from . import bytesmodel
+
+            return bytesmodel.from_concrete(ctx, e.value)
+        if isinstance(e.value, complex) or e.value is Ellipsis:
             return V.Opaque("const")
         if isinstance(e.value, float):
             return V.FloatV(e.value)
@@ -1634,7 +1662,12 @@ class Engine:
         if isinstance(e.op, ast.Invert):
             if isinstance(v, int):
                 return ~v
-            return -v - 1
+            r = -v - 1
+            if getattr(ctx, "bitinfo", None):
+                from . import bytesmodel
+
+                bytesmodel.note_invert(ctx, v, r)
+            return r
         raise EngineLimit("unary op")
 
     def ex_BinOp(self, ctx, e, env):
@@ -1771,7 +1804,12 @@ class Engine:
         for k, v in zip(e.keys, e.values):
             if k is None:
                 raise EngineLimit("dict unpacking")
-            d.items[self.hashable(self.eval(ctx, k, env))] = self.eval(ctx, v, env)
+            kv = self.eval(ctx, k, env)
+            vv = self.eval(ctx, v, env)
+            try:
+                d.items[self.hashable(kv)] = vv
+            except EngineLimit:
+                d.opaque = True  # a key that is not a concrete hashable: the contents are not tracked
         return d
 
     def hashable(self, k):
@@ -2103,14 +2141,21 @@ class Engine:
                     ns.__dict__["old_" + pname] = mutstate.snapshot(pval)  # pre-state of a materialised (mutable) argument
                 elif getattr(contract.impl, "publishes_args", False):
                     mutstate.publish(self, ctx, pval)  # a fresh immutable object handed to a constructor that keeps it
+        ns.__dict__["old"] = make_old_view(ns, ns.__dict__.get("old"))
         callee = short(contract.qualname)
         for label, c in self.run_spec(ctx, lambda: contract.clauses("pre", ns)):
             ctx.oblige("%s/pre#%s#%s" % (short(ctx.func), callee, label), lift_bool(c), kind="pre")
             ctx.assume(lift_bool(c))
+        if not finfo.name == "__init__" and isinstance(nsd.get("self"), Obj) and nsd["self"].fields is not None \
+                and self._invariant_at_calls(nsd["self"].cls) and finfo.cls is not None:
+            # the callee assumes the class invariant of its (mutable) receiver: it must hold at the call
+            # (opt-in per class spec: `invariant_at_calls = True`)
+            for label, inv in self.class_invariants(ctx, nsd["self"]):
+                ctx.oblige("%s/pre#%s#inv.%s" % (short(ctx.func), callee, label), lift_bool(inv), kind="pre")
         if contract.decreases is not None and getattr(ctx, "entry_measure", None) is not None and not ctx.spec_mode:
             # recursion group: the callee's termination measure must be lexicographically below the measure that the
-            # function under verification had at entry, and bounded below
-            cm = tuple(self.run_spec(ctx, contract.decreases, ns))
+            # function under verification had at entry, and bounded below (a scalar measure is a 1-tuple)
+            cm = as_measure(self.run_spec(ctx, contract.decreases, ns))
             ctx.oblige("%s/decreases#%s" % (short(ctx.func), callee), lex_less(cm, ctx.entry_measure), kind="decreases")
         log_entry = None
         if not ctx.spec_mode:
@@ -2144,6 +2189,11 @@ class Engine:
                 ns.__dict__["exc"] = exc
                 ctx.assume(lift_bool(self.run_spec(ctx, cond, ns)))
                 raise PyRaise(exc)
+        for xname, cond in contract.raises_only_if.items():
+            c = lift_bool(self.run_spec(ctx, cond, ns))
+            if ctx.decide(c):
+                if ctx.choose(2) == 1:
+                    raise PyRaise(ExcVal(self.exc_class(xname)))
         for xname in contract.may_raise:
             if ctx.choose(2) == 1:
                 raise PyRaise(self._new_exc(ctx, contract, ns, xname))
@@ -2183,6 +2233,16 @@ class Engine:
                     hobj.fields[fname] = ctx.fresh_kind("havoc." + fname, k)
                     self.assume_wellformed(ctx, hobj.fields[fname])
                     V.bind_owner(hobj)
+            # parameters that are materialised objects: `modifies_params = {"reader": ["_bit_offset"]}`
+            for pname, fnames in (getattr(contract.impl, "modifies_params", None) or {}).items():
+                po = nsd.get(pname)
+                if isinstance(po, Obj) and po.fields is not None:
+                    for fname in fnames:
+                        k, _ = self.field_kind(po.cls, fname)
+                        if k is not None:
+                            po.fields[fname] = ctx.fresh_kind("havoc.%s.%s" % (pname, fname), k)
+                elif po is not None:
+                    raise EngineLimit("callee modifies parameter %s which is not a materialised object here" % pname)
         ns.__dict__["result"] = result
         if log_entry is not None:
             log_entry["result"] = result
@@ -2195,6 +2255,19 @@ class Engine:
                 if label in contract.inv_exempt:
                     continue
                 ctx.assume(lift_bool(inv))
+        else:
+            # a method of a mutable class re-establishes the class invariant of the objects it modified (proved as
+            # inv# obligations of that method)
+            touched = []
+            if contract.modifies and isinstance(nsd.get("self"), Obj) and nsd["self"].fields is not None:
+                touched.append(nsd["self"])
+            for pname in (getattr(contract.impl, "modifies_params", None) or {}):
+                if isinstance(nsd.get(pname), Obj) and nsd[pname].fields is not None:
+                    touched.append(nsd[pname])
+            for o in touched:
+                if self._invariant_at_calls(o.cls):
+                    for label, inv in self.class_invariants(ctx, o):
+                        ctx.assume(lift_bool(inv))
         return result
 
     def havoc_init_fields(self, ctx, selfv: Obj, cls: ClassInfo):
@@ -2403,6 +2476,36 @@ def _accepts_skip(fn) -> bool:
 
 def contract_cls(engine, contract, cls):
     return cls
+
+
+def make_old_view(ns, self_snap):
+    """The pre-state `s.old` of a contract.  For a method of a materialised receiver it is the snapshot of the receiver
+       (attributes = its fields, `s.old._pending`), which additionally answers `.self` (itself) and `.<param>` (snapshots
+       of the parameters, materialised objects copied); for plain functions it is a namespace of parameter snapshots."""
+    from . import mutstate
+
+    params = {}
+    for k, v in ns.__dict__.items():
+        if k in ("ctx", "old", "result", "self", "exc") or k.startswith("old_"):
+            continue
+        params[k] = mutstate.snapshot(v)
+    if isinstance(self_snap, Obj):
+        self_snap.ghost["self"] = self_snap
+        for k, v in params.items():
+            self_snap.ghost.setdefault(k, v)
+        return self_snap
+    if isinstance(ns.__dict__.get("self"), Obj) and ns.self.fields is not None:
+        params["self"] = mutstate.snapshot(ns.self)
+    elif "self" in ns.__dict__:
+        params["self"] = ns.self
+    return NS(**params)
+
+
+def as_measure(m):
+    """A termination measure: a tuple / list (lexicographic) or a scalar (1-tuple)."""
+    if isinstance(m, (tuple, list)):
+        return tuple(m)
+    return (m,)
 
 
 def lex_less(a, b):
